@@ -490,6 +490,29 @@ where
     (SlicePayload::new(parent, buffer), ret)
 }
 
+/// Verification hook: builds one slice payload from the given transaction source.
+#[cfg(alpenglow_verif)]
+pub async fn verif_produce_slice_payload<T>(
+    txs_receiver: &T,
+    parent: Option<BlockId>,
+    duration_left: Duration,
+) -> (SlicePayload, Duration)
+where
+    T: TransactionNetwork,
+{
+    produce_slice_payload(txs_receiver, parent, duration_left).await
+}
+
+/// Verification hook: applies a received `ParentReady` block to the payload being built.
+#[cfg(alpenglow_verif)]
+pub fn verif_apply_parent_ready(
+    payload: &mut SlicePayload,
+    received: BlockId,
+    parent_block_id: &BlockId,
+) {
+    apply_parent_ready(payload, Ok(received), parent_block_id);
+}
+
 /// Enum to capture the different scenarios that can be returned from [`wait_for_first_slot`].
 #[derive(Debug)]
 enum SlotReady {
